@@ -9,3 +9,27 @@ package aggregator
 //@ func (*AggregatorContext).GetParamsMaxSizePrices
 //@   flag assumed
 //@   ensures r0 >= 1
+
+// C12: the voting powers a round is decided with are those of the current validator set only: after a validator-set
+// update no address outside the new set keeps a power, and every listed address has the power it was given.
+//@ func (*AggregatorContext).SetValidatorPowers
+//@   requires agc != nil
+//@   flag noframe
+//@   ensures[C12.svp.nostale] forallb(a, has(agc.validatorsPower, a) ==> has(vp, a))
+//@   ensures[C12.svp.power]   forallb(a, has(agc.validatorsPower, a) ==> agc.validatorsPower[a] == vp[a])
+//@ loop #1
+//@   invariant agc.validatorsPower != nil && agc.validatorsPower != vp
+//@   invariant[C12.svp.nostale] forallb(a, has(agc.validatorsPower, a) ==> has(vp, a) && agc.validatorsPower[a] == vp[a])
+//@   invariant forallb(a, has(vp, a) == old(has(vp, a)) && vp[a] == old(vp[a]))
+
+// C12: a round that closes without a price is reported under the token of its feeder (the caller advances that
+// token's round id with the previous price): per visited round the list of failed tokens grows by at most one
+// entry, and that entry is the TokenID of the round's feeder.
+//@ func (*AggregatorContext).SealRound
+//@   flag pure=GetTokenFeeder
+//@   requires agc != nil
+//@   flag noframe
+//@ loop #1
+//@   invariant true
+//@   step[C12.sr.failed] failed == prev_failed || (len(failed) == len(prev_failed) + 1 &&
+//@        failed[len(prev_failed)] == res_GetTokenFeeder_0.TokenID && forall(i, 0, len(prev_failed), failed[i] == prev_failed[i]))
